@@ -8,7 +8,9 @@ from lib import hx, unhx
 EDITORS = ["update_base_search", "clear_search", "update_unencoded_base_hash", "clear_hash", "update_base_port", "clear_port",
            "update_base_hostname", "update_base_username", "update_base_password", "update_base_pathname", "clear_hostname",
            "clear_password", "add_authority_slashes_if_needed", "set_scheme", "set_scheme_from_view_with_colon",
-           "append_base_pathname", "append_base_username", "append_base_password"]
+           "append_base_pathname", "append_base_username", "append_base_password",
+           # the public component setters, against Model/AggSetters.lean (precondition + encode + editor + limit check)
+           "set_username", "set_password", "set_search", "set_hash"]
 
 
 def gen_arg(rng, ed):
@@ -24,6 +26,12 @@ def gen_arg(rng, ed):
         return rng.choice([b"", b"u", b"user", b"%40", b"p%3Aq", b"a-b", b"x" * 9])
     if ed == "update_base_pathname":
         return rng.choice([b"/x", b"/", b"", b"//x", b"/a/b", b"x", b"/.//y", b"//", b"/a%20b", b"/" + b"p" * 17])
+    if ed in ("set_username", "set_password"):
+        return rng.choice([b"", b"u", b"a:b", b"p@q", "é".encode(), b"x y", b"%41", b"a/b"])
+    if ed == "set_search":
+        return rng.choice([b"q=1", b"?q", b"a b", b"a\tb", "é".encode(), b"'", b"??"])
+    if ed == "set_hash":
+        return rng.choice([b"f", b"#f", b"a b", b"a\tb", "é".encode(), b"`", b"##"])
     if ed == "set_scheme_from_view_with_colon":
         return rng.choice([b"foo:", b"https:", b"ws:", b"a:"])
     if ed == "append_base_pathname":
@@ -113,6 +121,8 @@ def explore(run, binp, cases):
                 break
             model = res[(ci, si, "edit")].split()[0]
             real = states[si + 1].split("|")[0] if si + 1 < len(states) else None
+            if real is not None:
+                real = ",".join(real.split(",")[:10])
             stats["editor_calls_compared"] += 1
             per_editor[ed] += 1
             run.nontriv((raw, ed, arg))
